@@ -55,8 +55,15 @@ def state_class(tree):
     )
 
 
+# operations that populate per-node caches WITHOUT compiling a contractor (print_contractions) or
+# that install custom index orders (sort) are drawn more often: stale-cache defects need them to be
+# followed by a mutation with no contraction in between
+EXTRA_WEIGHT = ("print_contractions", "print_contractions", "sort_contraction_indices", "sort_contraction_indices", "remove_ind", "restore_ind")
+
+
 def gen_op(rng, tree, alphabet=None, weights=None):
     names = list(alphabet or (MUTATORS + QUERIES))
+    names += [n for n in EXTRA_WEIGHT if n in names]
     for _ in range(20):
         name = rng.choice(names)
         op = _gen(rng, tree, name)
